@@ -9,9 +9,16 @@ structure DS where
   kind : Kind := .fix
   npos : Nat := 0            -- positions of a fixed shape
   n : Nat := 0               -- accepted `c` lines
-  fb : FB := {}
+  fb : FB Delta := {}
   rv : Val := {}             -- value of the feedback source's output (what the reader sees)
   pv : Val := {}             -- value of the producer's output
+  bun : Bool := false        -- shape tsbs = TSB{a : TS, s : TSS}: the three fields below replace the three above
+  bfb : FB BDelta := {}
+  brv : BVal := {}
+  bpv : BVal := {}
+  loop : Bool := false       -- self loop through the validity-gated body (`lp`) instead of the line
+  lp : Loop := {}
+  probe : Nat := 0           -- time at which the reader recorder is evaluated without a tick (0 = none)
 
 def natOfChars (cs : List Char) : Option Nat :=
   if cs.isEmpty || !cs.all Char.isDigit then none
@@ -51,24 +58,25 @@ def shapeInfo : String → Option (Kind × Nat)
   | "tsl2" => some (.fix, 2)
   | "tss" => some (.set, 0)
   | "tsd" => some (.dict, 0)
+  | "tsbs" => some (.fix, 1)      -- field a; the set field is handled by the `B` functions
   | _ => none
 
-def tokOk (k : Kind) (npos : Nat) (init : Bool) : Tok → Bool
+def tokOk (k : Kind) (npos : Nat) : Tok → Bool
   | .set p _ => (k == .fix && p < npos) || k == .dict
   | .add _ => k == .set
-  | .rem _ => (k == .set || k == .dict) && !init
+  | .rem _ => k == .set || k == .dict
 
 def distinct : List Nat → Bool
   | [] => true
   | a :: r => !r.contains a && distinct r
 
 /-- writes of one line -> operations as a `Delta` -/
-def parseWrites (k : Kind) (npos : Nat) (init : Bool) (text : String) : Option Delta :=
+def parseWrites (k : Kind) (npos : Nat) (text : String) : Option Delta :=
   let parts := text.splitOn ","
   let toks := parts.map parseTok
   if toks.any (·.isNone) then none else
   let ts := toks.filterMap id
-  if ts.isEmpty || !ts.all (tokOk k npos init) || !distinct (ts.map Tok.pos) then none else
+  if ts.isEmpty || !ts.all (tokOk k npos) || !distinct (ts.map Tok.pos) then none else
   some { mods := ts.filterMap (fun t => match t with
                                 | .set p v => some (p, v)
                                 | .add p => some (p, 0)
@@ -76,6 +84,25 @@ def parseWrites (k : Kind) (npos : Nat) (init : Bool) (text : String) : Option D
          rems := ts.filterMap (fun t => match t with
                                 | .rem p => some p
                                 | _ => none) }
+
+/-- writes of one line for `tsbs`: `0=v` (field a), `+e` / `-e` (field s).  `init`: an authored delta, whose `s`
+    entry defaults to the empty set delta; otherwise producer operations (`s` present iff it is mutated) -/
+def parseWritesB (init : Bool) (text : String) : Option BDelta :=
+  let toks := (text.splitOn ",").map parseTok
+  if toks.any (·.isNone) then none else
+  let ts := toks.filterMap id
+  let sets := ts.filterMap (fun t => match t with
+    | .set p v => some (p, v)
+    | _ => none)
+  let adds := ts.filterMap (fun t => match t with
+    | .add p => some (p, (0 : Int))
+    | _ => none)
+  let rems := ts.filterMap (fun t => match t with
+    | .rem p => some p
+    | _ => none)
+  if ts.isEmpty || sets.length > 1 || sets.any (·.1 != 0) || !distinct (adds.map (·.1) ++ rems) then none else
+  some { a := sets.head?.map (·.2),
+         s := if init || !adds.isEmpty || !rems.isEmpty then some { mods := adds, rems := rems } else none }
 
 def showDelta (k : Kind) (d : Delta) : String :=
   let ms := d.mods.map fun e => (e.1, if k == .set then s!"+{e.1}" else s!"{e.1}={e.2}")
@@ -87,12 +114,45 @@ def showVal (k : Kind) (v : Val) : String :=
   let toks := v.items.map fun e => if k == .set then s!"{e.1}" else s!"{e.1}={e.2}"
   "{" ++ ",".intercalate toks ++ "}"
 
+/-- tokens of a set delta without braces, sorted by element -/
+def setToks (d : Delta) : List String :=
+  let ms := d.mods.map fun e => (e.1, s!"+{e.1}")
+  let rs := d.rems.map fun p => (p, s!"-{p}")
+  ((ms ++ rs).mergeSort (fun a b => a.1 ≤ b.1)).map (·.2)
+
+/-- a bundle delta as the recorder prints it: `0=v` if `a` ticked, `s` if `s` ticked, then the set changes -/
+def showB (a : Option Int) (s : Option Delta) : String :=
+  let ta := match a with
+    | some x => [s!"0={x}"]
+    | none => []
+  let ts := match s with
+    | some d => "s" :: setToks d
+    | none => []
+  "{" ++ ",".intercalate (ta ++ ts) ++ "}"
+
+def showBDelta (d : BDelta) : String := showB d.a d.s
+
+def showBObs (o : BObs) : String :=
+  showB (o.a.bind (fun d => d.mods.head?.map (·.2))) o.s
+
+/-- the bundle is valid when a field is -/
+def bValid (v : BVal) : Bool := v.a.valid || v.s.valid
+
+def showBVal (v : BVal) : String :=
+  if !bValid v then "invalid" else
+  let ta := v.a.items.map fun e => s!"{e.1}={e.2}"
+  let ts := if v.s.valid then "s" :: v.s.items.map (fun e => s!"{e.1}") else []
+  "{" ++ ",".intercalate (ta ++ ts) ++ "}"
+
+def showValid (k : Kind) (v : Val) : String := if v.valid then showVal k v else "invalid"
+
 /-- one `c` line at time `t` -/
 def cycleLine (d : DS) (ops : Option Delta) : DS × String :=
   let t := 1 + d.n
   let d := { d with n := d.n + 1 }
   let due := sourceDue t d.fb
-  if !(due || ops.isSome) then (d, s!"t={t} cyc=0 w=- r=- v=-") else
+  let probed := d.probe == t
+  if !(due || ops.isSome || probed) then (d, s!"t={t} cyc=0 w=- r=- v=-") else
   let r := sourceStep t d.fb
   let (rv, robs) : Val × Option (Option Delta) :=
     match r.2 with
@@ -107,9 +167,81 @@ def cycleLine (d : DS) (ops : Option Delta) : DS × String :=
     | some x => showDelta d.kind x
     | none => "-"
   let (rs, vs) := match robs with
-    | some (some x) => (showDelta d.kind x, showVal d.kind rv)
-    | _ => ("-", "-")
+    | some (some x) => (showDelta d.kind x, showValid d.kind rv)
+    | _ => ("-", if probed then showValid d.kind rv else "-")
   ({ d with fb := fb, rv := rv, pv := pv }, s!"t={t} cyc=1 w={ws} r={rs} v={vs}")
+
+/-- the same for the bundle with a collection field -/
+def cycleLineB (d : DS) (ops : Option BDelta) : DS × String :=
+  let t := 1 + d.n
+  let d := { d with n := d.n + 1 }
+  let due := sourceDue t d.bfb
+  let probed := d.probe == t
+  if !(due || ops.isSome || probed) then (d, s!"t={t} cyc=0 w=- r=- v=-") else
+  let r := sourceStep t d.bfb
+  let (rv, robs) : BVal × Option BObs :=
+    match r.2 with
+    | some dl => applyDeltaB d.brv dl
+    | none => (d.brv, none)
+  let (pv, w) : BVal × Option BDelta :=
+    match ops with
+    | some o => let p := producerStepB d.bpv o; (p.1, some p.2)
+    | none => (d.bpv, none)
+  let fb := sinkStep t w r.1
+  let ws := match w with
+    | some x => showBDelta x
+    | none => "-"
+  let (rs, vs) := match robs with
+    | some x => (showBObs x, showBVal rv)
+    | none => ("-", if probed then showBVal rv else "-")
+  ({ d with bfb := fb, brv := rv, bpv := pv }, s!"t={t} cyc=1 w={ws} r={rs} v={vs}")
+
+/-- the same for the self loop: `x` = the value written to the external input -/
+def cycleLineL (d : DS) (x : Option Int) : DS × String :=
+  let t := 1 + d.n
+  let d := { d with n := d.n + 1 }
+  let due := sourceDue t d.lp.fb
+  let probed := d.probe == t
+  if !(due || x.isSome || probed) then (d, s!"t={t} cyc=0 w=- r=- v=-") else
+  let r := loopCycle d.kind t x d.lp
+  let ws := match r.2.2 with
+    | some w => showDelta d.kind w
+    | none => "-"
+  let (rs, vs) := match r.2.1 with
+    | some o => (showDelta d.kind o, showValid d.kind r.1.prev)
+    | none => ("-", if probed then showValid d.kind r.1.prev else "-")
+  ({ d with lp := r.1 }, s!"t={t} cyc=1 w={ws} r={rs} v={vs}")
+
+/-- options of the `shape` line after the shape name: `[init <writes>|{}] [loop] [probe <t>]` -/
+def parseOpts (s : String) (k : Kind) (np : Nat) (d : DS) (rest : List String) : Option DS :=
+  let base : DS := { d with shape := s, kind := k, npos := np, bun := s == "tsbs" }
+  let afterInit : Option (DS × List String) :=
+    match rest with
+    | "init" :: text :: r =>
+      if s == "tsbs" then
+        (if text == "{}" then some emptyDeltaB else parseWritesB true text).map
+          (fun d0 => ({ base with bfb := initFB 1 d0 }, r))
+      else if text == "{}" then
+        (if s == "ts" then none else some ({ base with fb := initFB 1 emptyDelta, lp := loopStart 1 (some emptyDelta) }, r))
+      else (parseWrites k np text).map (fun d0 => ({ base with fb := initFB 1 d0, lp := loopStart 1 (some d0) }, r))
+    | r => some (base, r)
+  match afterInit with
+  | none => none
+  | some (d1, r1) =>
+    let afterLoop : Option (DS × List String) :=
+      match r1 with
+      | "loop" :: r => if s == "ts" || s == "tss" || s == "tsd" then some ({ d1 with loop := true }, r) else none
+      | r => some (d1, r)
+    match afterLoop with
+    | none => none
+    | some (d2, r2) =>
+      match r2 with
+      | [] => some d2
+      | ["probe", t] =>
+        match natOfChars t.toList with
+        | some n => if 1 ≤ n && n < 1000 then some { d2 with probe := n } else none
+        | none => none
+      | _ => none
 
 def step (d : DS) (ws : List String) : DS × String :=
   match ws with
@@ -119,17 +251,27 @@ def step (d : DS) (ws : List String) : DS × String :=
     match shapeInfo s with
     | none => (d, "bad-op")
     | some (k, np) =>
-      match rest with
-      | [] => ({ d with shape := s, kind := k, npos := np }, "ok")
-      | ["init", text] =>
-        match parseWrites k np true text with
-        | some d0 => ({ d with shape := s, kind := k, npos := np, fb := initFB 1 d0 }, "ok")
-        | none => (d, "bad-op")
-      | _ => (d, "bad-op")
+      match parseOpts s k np d rest with
+      | some d' => (d', "ok")
+      | none => (d, "bad-op")
   | ["c", text] =>
     if d.shape == "" then (d, "bad-op") else
+    if d.loop then
+      (if text == "-" then cycleLineL d none else
+       match parseWrites .fix 1 text with
+       | some ops =>
+         match ops.mods with
+         | [(_, x)] => if x ≥ 0 then cycleLineL d (some x) else (d, "bad-op")
+         | _ => (d, "bad-op")
+       | none => (d, "bad-op"))
+    else if d.bun then
+      (if text == "-" then cycleLineB d none else
+       match parseWritesB false text with
+       | some ops => cycleLineB d (some ops)
+       | none => (d, "bad-op"))
+    else
     if text == "-" then cycleLine d none else
-    match parseWrites d.kind d.npos false text with
+    match parseWrites d.kind d.npos text with
     | some ops => cycleLine d (some ops)
     | none => (d, "bad-op")
   | ["run"] =>
